@@ -147,7 +147,15 @@ func TestC10(t *testing.T) {
 	// independent peer (optional): OpenSSL s_server; quick = 2 configurations per parrot,
 	// thorough = every applicable configuration for every target
 	if mon.Thorough() {
-		opensslSweep(r, targets, 0, "C10")
+		// every configuration for every parrot; three PRNG-chosen ones for each other target
+		var rest []Target
+		for _, tg := range targets {
+			if tg.Spec != nil || tg.ID.Seed != nil {
+				rest = append(rest, tg)
+			}
+		}
+		opensslSweep(r, ParrotTargets(true), 0, "C10")
+		opensslSweep(r, rest, 3, "C10rest")
 	} else {
 		opensslSweep(r, ParrotTargets(true), 2, "C10")
 	}
